@@ -46,6 +46,22 @@ UNVERIFIED = {"C12": [
     "that the parser hands unescape_string exactly the lexer's string token, and that `string_repr` calls escape_string_literal (values.rs:621)",
 ]}
 
+# Bounded stand-in for the part of C12 no contract reaches (Value::display of non-string values):
+# each listed value is printed with string_repr and the printed text is evaluated and compared.
+BOUNDED_VALUES = [
+    "0", "-1", "9223372036854775807", "-9223372036854775807 - 1", "1.5", "-0.25", "0.1 +. 0.2", "100.0", "1.0 /. 3.0",
+    "10000000000000000000.0", "-123456789012345678901234567890.0", "0.000001", "123456789.125",
+    "\"\"", "\"a\\\\\"", "\"q\\\"n\\nt\\tb\\\\e\"", "\"\u00e9 \u2192\"",
+    "[]", "[1, 2, 3]", "[1.5, 100000000000000000000.0]", "[\"a\\\"b\", \"\"]", "[[1], []]",
+    "(1, \"x\")", "(1.5, [2], (3, 4))", "Dict[\"a\" => 1]", "Dict[\"k\\\"\" => [1.5]]",
+    "True", "False", "Unit", "Some(1)", "None", "Some(\"x\\\\\")", "Ok(1.5)", "Err(\"e\")", "Some((1, [2.5]))",
+]
+BOUNDED = [
+    {"name": "display_round_trip", "kind": "roundtrip", "props": ["C12"], "input": BOUNDED_VALUES, "n_inputs": len(BOUNDED_VALUES),
+     "bound": "%d listed values (ints at the limits, finite floats incl. beyond 2^63, strings with escapes, nested lists/tuples/dicts/options/results)" % len(BOUNDED_VALUES),
+     "expect": {}},
+]
+
 GLUE = """
 #[verifier::external_body] pub struct Position { _o: u8 }
 impl Clone for Position {
